@@ -94,7 +94,13 @@ def execute(run: Run, lab: Lab, histories, corr, tag, rng=None):
         tail = [("digest", "public", PROBES)] + [("ids", T, PROBES) for T in ["public"] + [t for t in used if t != "public"]]
         hs.append(lab.with_tables(list(h), rng) + tail)
     outs = lab.pool.map(hs)
-    reps = lab.run_model(hs)
+    try:
+        reps = lab.run_model(hs)
+    except (ValueError, KeyError, IndexError) as e:
+        run.proof_broken.append("the model generated from the lazy-loading source cannot express the histories "
+                                "(%s: %s); histories are judged by the oracle only" % (type(e).__name__, e))
+        lab.degrade("%s: %s" % (type(e).__name__, e))
+        reps = lab.run_model(hs)
     for h, o, r in zip(hs, outs, reps):
         if isinstance(o, dict):
             raise InfraError("history child crashed: %s" % str(o)[-400:])
